@@ -143,7 +143,7 @@ class Monitor:
     def check_counts(self):
         q = self.s.cmd('async_counts 0')
         tot = int(q['pending']) + int(q['received'])
-        if tot != len(self.outstanding()):
+        if tot != len(self.outstanding()) or int(q['pending']) > len(self.outstanding()) or int(q['received']) > len(self.outstanding()):
             self.viol('counters-disagree', 'pending %s + received %s != %d accepted-but-not-returned requests' % (q['pending'], q['received'], len(self.outstanding())))
 
     # ---- actions
@@ -419,12 +419,112 @@ def run_schedule(sess, rng, r, schedule, cache, label, snd_to=10, rcv_to=10, con
     return m
 
 
+def conf_accounting(sess, rng, r, nconf, split, order, label):
+    """a signing request and an explicit configuration request are outstanding; the server delivers nconf configuration PDUs
+    (one write or one write each) before / after the client looks, then the signing reply. After every step the reported pending and
+    received counts must be exactly: received = answered but not yet handed back, pending = the rest of the outstanding requests."""
+    c = sess.cmd
+    key = b'anon'
+    c('clock 1700000000')
+    c('async_new 0 0 sign')
+    c('async_endpoint 0 set ksi+tcp://agg.example:3332 anon anon')
+    c('async_opt 0 cache_size 4')
+    c('async_opt 0 max_request_count 1000')
+    c('net_ep agg.example 3332 connect=0 send=- recv=-')
+    n0 = len(sess.tcp_order)
+    trace = []
+
+    def viol(k, what):
+        r.viol('async-tcp:conf-accounting:' + k, '%s\nnconf=%d split=%s order=%s trace: %s' % (what, nconf, split, order, ' | '.join(trace)), label)
+
+    def counts(exp_pending, exp_received, where):
+        q = c('async_counts 0')
+        got = (int(q['pending']), int(q['received']))
+        trace.append('%s pending/received=%s' % (where, got))
+        if got != (exp_pending, exp_received):
+            viol('counters', '%s: pending/received reported %s, expected %s' % (where, got, (exp_pending, exp_received)))
+            return False
+        return True
+    h = R.H(1, b'conf/' + label.encode())
+    first = ['sign', 'conf'] if order == 0 else ['conf', 'sign']
+    rid = None
+    for what in first:
+        q = c('async_add 0 0 sign %s 0 S' % h.hex()) if what == 'sign' else c('async_add 0 0 signconf C')
+        if q.rc != 0:
+            viol('add-refused', '%s request refused rc=%#x' % (what, q.rc))
+            c('async_free 0')
+            return
+        if what == 'sign':
+            rid = int(q['reqid'])
+    c('clock +1')
+    q = c('async_run 0')
+    if not counts(2, 0, 'both requests sent'):
+        c('async_free 0'); return
+    conns = [i for i in sess.tcp_order[n0:] if i['open']]
+    if not conns:
+        viol('no-connection', 'no connection opened')
+        c('async_free 0'); return
+    fd = conns[-1]['fd']
+    confs = [S.wrap_v2(S.AGGR_RESP_V2, [S.conf_elem('aggr', 2, max_level=10 + k, aggr_period=400, max_req=4)], key) for k in range(nconf)]
+    returned = {'S': 0, 'C': 0}
+    got_conf = []
+
+    def run_once(where):
+        c('clock +1')
+        q = c('async_run 0')
+        if q.get('handle') == '1':
+            if q.get('state') == '4':
+                returned['C'] += 1
+                got_conf.append(q.get('config'))
+            elif q.get('tag') == 'S':
+                returned['S'] += 1
+            trace.append('%s -> handle state=%s tag=%s' % (where, q.get('state'), q.get('tag')))
+        return q
+    if split:
+        for k, pdu in enumerate(confs):
+            c('net_push %d %s' % (fd, pdu.hex()))
+            c('async_run 0 nohandle=1') if False else None
+    else:
+        c('net_push %d %s' % (fd, b''.join(confs).hex()))
+    # the client reads everything that is there in its next run; the configuration request is answered, the signing request is not
+    q = run_once('after configuration PDUs')
+    exp_c_out = 1 - returned['C']
+    if not counts(1, exp_c_out, 'configuration delivered, signing request still waiting'):
+        c('async_free 0'); return
+    for _ in range(2):
+        if returned['C']:
+            break
+        run_once('collect configuration')
+    if returned['C'] != 1:
+        viol('conf-not-returned', 'configuration request returned %d times' % returned['C'])
+        c('async_free 0'); return
+    if not counts(1, 0, 'configuration handed back'):
+        c('async_free 0'); return
+    sg = gen.gen_signature(random.Random(label), first_corr=0, with_cal=False, rfc=False, doc_imprint=h, time=1500000000, nchains=1)
+    c('net_push %d %s' % (fd, S.aggr_response(dict(req_id=rid), sg, key).hex()))
+    for _ in range(3):
+        if returned['S']:
+            break
+        run_once('collect signature')
+    if returned['S'] != 1:
+        viol('sign-not-returned', 'signing request returned %d times' % returned['S'])
+    counts(0, 0, 'everything handed back')
+    r.observe(('conf-accounting', nconf, split, order, tuple(got_conf)))
+    r.count('conf_accounting_scenarios')
+    c('async_free 0')
+
+
 def worker(job, r):
     exe, env, work, seed, mode, arg = job
     rng = random.Random(seed)
     sess = net.Session(exe, env, work, None)
     sess.cmd('ctx 0')
-    if mode == 'exhaustive':
+    if mode == 'conf':
+        for nconf in (1, 2, 3, 5):
+            for split in (False, True):
+                for order in (0, 1):
+                    conf_accounting(sess, rng, r, nconf, split, order, 'c%d-%d-%d-%d' % (seed, nconf, split, order))
+    elif mode == 'exhaustive':
         L, shard, nshards = arg
         k = 0
         for sched in itertools.product(ACTIONS, repeat=L):
@@ -471,6 +571,7 @@ def run(ctx):
     jobs = [(exe, ctx.env(), ctx.work, ctx.seed * 1000 + i, 'exhaustive', (L, i, 16)) for i in range(16)]
     jobs += [(exe, ctx.env(), ctx.work, ctx.seed * 1000 + 100 + i, 'random', nrand) for i in range(16)]
     jobs += [(exe, ctx.env(), ctx.work, ctx.seed * 1000 + 200 + i, 'http', nrand) for i in range(8)]
+    jobs += [(exe, ctx.env(), ctx.work, ctx.seed * 1000 + 300 + i, 'conf', None) for i in range(2)]
     pool.run(ctx, worker, jobs, workers=16)
     ctx.exhaustive = False
     c = ctx.counters
